@@ -1194,6 +1194,11 @@ class Process(StateMachine, persistence.Savable, metaclass=ProcessStateMachineMe
         """
         if self._interrupt_action is not None:
             self._interrupt_action.cancel()
+            # a cancelled action is no longer a pending pause / kill
+            if self._pausing is self._interrupt_action:
+                self._pausing = None
+            if self._killing is self._interrupt_action:
+                self._killing = None
         self._interrupt_action = new_action
 
     def _set_interrupt_action_from_exception(self, interrupt_exception: process_states.Interruption) -> None:
